@@ -4,6 +4,9 @@
 import EpsModel.Lemmas.Shapes
 import EpsModel.Lemmas.BlocksIn
 import EpsModel.Lemmas.TopLevel
+import EpsModel.Alloc
+import EpsModel.Lemmas.AllocL
+import EpsModel.Props.C02
 namespace Eps.C03
 open Eps
 
@@ -49,34 +52,6 @@ theorem string_borrowed_in_place (base : Nat) (b rest : B) (pos : Nat) (hl : b.l
       = .ok (.bStr (pos + 8) b, rest, pos + (8 + b.length)) :=
   eps_string_shape base b rest pos hl
 
-mutual
-/-- Heap allocations needed to own a fully deserialized value (one per non-empty string or
-    sequence; an upper bound for arrays, which are stored inline). -/
-def heapAllocs : Val → Nat
-  | .str b => if b.isEmpty then 0 else 1
-  | .seq vs => (if vs.isEmpty then 0 else 1) + heapAllocsList vs
-  | .variant _ fs => heapAllocsList fs
-  | .record fs => heapAllocsList fs
-  | _ => 0
-def heapAllocsList : List Val → Nat
-  | [] => 0
-  | v :: vs => heapAllocs v + heapAllocsList vs
-end
-
-mutual
-/-- Allocations performed while building an ε-copy result: the rebuilt deep sequences and the
-    fields that are by design fully copied; borrowed nodes contribute nothing, whatever their length. -/
-def epsAllocs : EVal → Nat
-  | .seq es => (if es.isEmpty then 0 else 1) + epsAllocsList es
-  | .variant _ es => epsAllocsList es
-  | .record es => epsAllocsList es
-  | .full v => heapAllocs v
-  | _ => 0
-def epsAllocsList : List EVal → Nat
-  | [] => 0
-  | e :: es => epsAllocs e + epsAllocsList es
-end
-
 /-- **Allocation independent of borrowed payloads** (model level): replacing the payload of any
     borrowed node by any other payload — longer or shorter — does not change the allocation count. -/
 theorem alloc_payload_independent (off off' : Nat) (t : Ty) (vs vs' : List Val) (b b' : B) (v v' : Val) :
@@ -84,6 +59,44 @@ theorem alloc_payload_independent (off off' : Nat) (t : Ty) (vs vs' : List Val) 
     epsAllocs (.bStr off b) = epsAllocs (.bStr off' b') ∧
     epsAllocs (.bRef off t v) = epsAllocs (.bRef off' t v') := by
   simp [epsAllocs]
+
+/-- **What the ε-copy reader allocates is determined by the type and by the deep-copy skeleton of its result**, for
+    every input (valid stream or not), base address and position: `Ty.allocOf` looks only at the nodes the type makes
+    rebuilt (deep sequences and arrays: one allocation when non-empty, plus their items) and at the fields that are fully
+    copied by design; strings, sequences of zero-copy items, zero-copy arrays / tuples / structures contribute nothing
+    whatever they contain (`Ty.allocOf_string`, `Ty.allocOf_vec_zero`, … hold for *every* value). -/
+theorem eps_alloc_determined (base : Nat) (T : Ty) (d : B) (pos : Nat) (e : EVal) (d' : B) (p' : Nat)
+    (h : T.decEps base d pos = .ok (e, d', p')) : epsAllocs e = T.allocOf e.erase :=
+  Ty.eps_alloc base T d pos e d' p' h
+
+/-- **Allocation independent of the borrowed payloads** (the second sentence of the property, at full strength on the
+    model's reader): two values of one type with the same deep-copy skeleton (`Ty.skel`: they differ only in what is
+    borrowed — contents and lengths of strings and zero-copy sequences, zero-copy data) cost the ε-copy reader the same
+    allocations, wherever their streams are placed. -/
+theorem alloc_independent_of_borrowed_payloads (base base' : Nat) (T : Ty) (v w : Val) (hT : T.wf = true)
+    (hv : T.wt v = true) (hw : T.wt w = true) (pos pos' : Nat) (rest rest' : B)
+    (ha : AlignedAll (.slice base) (T.blocks v pos)) (ha' : AlignedAll (.slice base') (T.blocks w pos'))
+    (hs : T.skel v = T.skel w) :
+    ∃ e e', T.decEps base (T.enc v pos ++ rest) pos = .ok (e, rest, pos + (T.enc v pos).length) ∧
+      T.decEps base' (T.enc w pos' ++ rest') pos' = .ok (e', rest', pos' + (T.enc w pos').length) ∧
+      epsAllocs e = epsAllocs e' := by
+  obtain ⟨e, he, hev, _⟩ := C02.decEps_enc base T v hT hv pos rest ha
+  obtain ⟨e', he', hew, _⟩ := C02.decEps_enc base' T w hT hw pos' rest' ha'
+  refine ⟨e, e', he, he', ?_⟩
+  rw [Ty.eps_alloc base T _ pos e _ _ he, Ty.eps_alloc base' T _ pos' e' _ _ he', hev, hew]
+  exact Ty.allocOf_of_skel_eq T v w hs
+
+/-- Non-vacuity of the skeleton hypothesis: a structure `{ a: A = Vec<u8> (a type parameter), n: u16 }` holding three
+    bytes and one holding none have the same skeleton; so have two vectors of strings of the same length. -/
+example :
+    let T : Ty := .adt ⟨[0x57], false, false, false, [], 1, []⟩ (.cons [0x57] (.cons [0x61] true (.vec (.prim (.int .u8))) (.cons [0x6e] false (.prim (.int .u16)) .nil)) .nil)
+    T.skel (.record [.seq [.bits 1, .bits 2, .bits 3], .bits 7]) = T.skel (.record [.seq [], .bits 7]) := by
+  simp [Ty.skel, Fields.skel, Ty.isZC]
+example : (Ty.vec .string).skel (.seq [.str [1, 2, 3], .str []]) = (Ty.vec .string).skel (.seq [.str [], .str [9]]) := by
+  simp [Ty.skel, Ty.skelList, Ty.isZC]
+/-- … and a longer vector of strings has a different one (the rebuilt sequence keeps its length). -/
+example : (Ty.vec .string).skel (.seq [.str [1]]) ≠ (Ty.vec .string).skel (.seq [.str [1], .str [2]]) := by
+  simp [Ty.skel, Ty.skelList, Ty.isZC]
 
 /-- Non-vacuity: `Vec<u32>` with one block. -/
 example : AlignedAll (.slice 0) ((Ty.vec (.prim (.int .u32))).blocks (.seq [.bits 1]) 60) := by
